@@ -127,7 +127,10 @@ def body_cli(case, rec):
         if "manual_breaks" in info and (info["manual_breaks"], info["manual_joins"]) != exp[1:]:
             raise Violation(f"info.yaml totals {info['manual_breaks']}/{info['manual_joins']} differ from {exp[1:]}")
         asms = info.get("assemblies") or {}
-        if "manual_breaks" not in info and len(asms) == 1 and len([f for f in out.parent.iterdir() if f.name.endswith('.agp')]) == 1:
+        # per-assembly figures are relative to the input scaffolds of the same name prefix; they equal the totals only
+        # when the input has a single prefix group (no first-contig name of the form <letters><digits>_...)
+        single_group = not any(re.match(r"[A-Za-z]+\d+_", next(r for r in rows if r[0] == "F")[1]) for _n, rows in case["input"])
+        if single_group and "manual_breaks" not in info and len(asms) == 1 and len([f for f in out.parent.iterdir() if f.name.endswith('.agp')]) == 1:
             v = next(iter(asms.values()))
             if (v["manual_breaks"], v["manual_joins"]) != exp[1:]:
                 raise Violation(f"info.yaml single assembly {v} differs from {exp[1:]}")
@@ -140,7 +143,16 @@ def body_cli(case, rec):
 @st.composite
 def cases(draw, cli=False):
     t = draw(gen.texel())
-    inp = draw(gen.input_assembly(t, max_scaffolds=4 if cli else 6, max_contigs=6 if cli else 10))
+    inp = draw(gen.input_assembly(t, max_scaffolds=4 if cli else 6, max_contigs=6 if cli else 10, arbitrary_names=True))
+    if draw(st.integers(0, 4)) == 0:
+        # haplotype-prefixed names, the haplotypes interleaved in the input file (HAP1_1, HAP2_2, HAP1_3, ...)
+        for i, sc in enumerate(inp):
+            new = f"{['HAP1', 'HAP2'][i % 2]}_SCAFFOLD_{i + 1}"
+            fasta_shaped = all(r[1] == sc[0] for r in sc[1] if r[0] == "F")
+            for k, r in enumerate(sc[1]):
+                if r[0] == "F":
+                    r[1] = new if fasta_shaped else f"{['HAP1', 'HAP2'][i % 2]}_ctg_{i + 1}{k}"
+            sc[0] = new
     kind = draw(st.integers(0, 3))
     m = draw(gen.model_map(inp, t, cut=kind != 0))
     case = {"t": gen.texel_str(t), "input": inp, "map": m, "prefix": "SUPER_"}
@@ -154,6 +166,8 @@ def cases(draw, cli=False):
         m2, ops = draw(gen.perturb_map(m, inp, t))
         case["map"] = m2
         case["ops"] = ops
+    if not cli and draw(st.integers(0, 5)) == 0:
+        case["late_prefix"] = draw(st.sampled_from(["CHR_", "LG", "SUPER_"]))
     if cli and draw(st.booleans()):
         # tag a few single-piece unpainted scaffolds as haplotigs
         for _pn, rows in case["map"]:
